@@ -138,8 +138,9 @@ func buildWorld() {
 	// R4 is a 2500-bit key: its modulus length is not a multiple of 8 bits
 	// R5 and R6 have small public exponents (35, as OpenSSH before 5.4 made
 	// them, and 3)
-	for i, n := range []string{"R1", "R2", "R3", "R4", "R5", "R6"} {
-		r := LoadRSA([]string{"rsa1", "rsa2", "rsa3", "rsa2500", "rsa_e35", "rsa_e3"}[i])
+	// R7 and R8 have three and four prime factors (PKCS #1 container)
+	for i, n := range []string{"R1", "R2", "R3", "R4", "R5", "R6", "R7", "R8"} {
+		r := LoadRSA([]string{"rsa1", "rsa2", "rsa3", "rsa2500", "rsa_e35", "rsa_e3", "rsa_mp3", "rsa_mp4"}[i])
 		p := &Party{Name: n, Kind: 'R', Ref: r.Ref}
 		// a tree under test that refuses a fixture key must show up as a
 		// refusal in the monitors, not as a crash while the world is built
@@ -190,7 +191,7 @@ func buildWorld() {
 		{Type: "long-args", Args: []string{string(long), "tail"}, Body: make([]byte, 100)}}}}
 }
 
-// P returns the named party: X1..X4, E1..E3, EZ1, EZ2, PE1, PR1, R1..R6, A1..A3, G1, G2, S1, S2, U0..U4, and
+// P returns the named party: X1..X4, E1..E3, EZ1, EZ2, PE1, PR1, R1..R8, A1..A3, G1, G2, S1, S2, U0..U4, and
 // XN<anything>: further native parties made on demand (for very long lists).
 func P(name string) *Party {
 	worldOnce.Do(buildWorld)
